@@ -70,9 +70,8 @@ def gen_cases(tier):
                 base.update(spec["base"])
                 for n in (1, 2, 3):
                     # ---- valid inputs: base + <=k deviations
-                    full = thorough or n == 2 or (pre == "rich" and vi == 0)
-                    which = ["none", "fresh", "perm", "gap"] if thorough else (["none", "fresh"] if n == 2 else ["none"])
-                    devsets = [()] + ([(d,) for d in opts] if full else [])
+                    which = ["none", "fresh", "perm", "gap"] if thorough else (["none", "fresh", "perm"] if n > 1 else ["none"])
+                    devsets = [()] + [(d,) for d in opts]
                     if thorough and n == 2 and pre != "empty" and vi == 0:
                         devsets += [c for c in itertools.combinations(opts, 2) if ic.compatible(c)]
                     for devs in devsets:
@@ -225,6 +224,13 @@ def _explain_reject(case, acc_a, oa, ob, ra, rb, net_batch):
         elif not any(i in wrong.index for i in case["index"]) and len(set(case["index"])) == len(case["index"]) and \
                 any(i in table.index for i in case["index"]):
             out.append("explained=index_checked_in_wrong_table")
+    if pair in WRONG_TABLE and (not acc_a) and case["index"] is not None and len(set(case["index"])) == len(case["index"]):
+        wrong, table = pre[WRONG_TABLE[pair]], pre[ic.PAIRS[pair]["table"]]
+        if any(i in wrong.index for i in case["index"]) and not any(i in table.index for i in case["index"]) and \
+                (WRONG_TABLE[pair].capitalize() + "s with indexes") in str(ra):
+            out.append("explained=index_checked_in_wrong_table")
+    if pair == "switch" and (not acc_a) and args["et"][0] == "a" and "truth value of an array" in str(ra):
+        out.append("explained=switches_et_array_truth_value")
     if pair in ("poly_cost", "pwl_cost"):
         if acc_a and case.get("check") is not False:
             from pandapower.create._utils import _costs_existance_check
@@ -237,10 +243,16 @@ def _explain_reject(case, acc_a, oa, ob, ra, rb, net_batch):
                     out.append("explained=costs_existance_check_returns_0")
             except Exception:
                 pass
-        if (not acc_a) and oa == "raised:ValueError" and "special directives" in str(ra) and args.get("power_type", ["s"])[0] != "s":
+        if (not acc_a) and oa == "raised:ValueError" and args.get("power_type", ["s"])[0] != "s" and \
+                ("special directives" in str(ra) or "Shape of passed values" in str(ra)):
             out.append("explained=costs_existance_check_power_type_list")
-    if pair == "switch" and (not acc_a) and args["et"] == ["s", "t3"] and "et type t3 is not implemented" in str(ra):
+    if pair == "switch" and (not acc_a) and "is not implemented" in str(ra) and \
+            (args["et"] == ["s", "t3"] or (args["et"][0] != "s" and set(args["et"][1]) == {"t3"})):
         out.append("explained=switches_scalar_t3_not_implemented")
+    if pair == "shunt" and (not acc_a) and "vn_kv" not in args and "duplicate labels" in str(ra):
+        buses = [ic.single_value(args["buses"], i) for i in range(case["n"])]
+        if len(set(buses)) < len(buses):        # the bus-labelled vn_kv Series is aligned by label with the new index
+            out.append("explained=shunts_vn_kv_label_aligned")
     if (not acc_a) and oa == "raised:TypeError" and "isnan" in str(ra):
         if any(f[0] != "s" and any(isinstance(x, str) and x != ic.NAN or x is None for x in f[1]) for f in args.values()):
             out.append("explained=not_nan_on_list_with_str_or_none")
@@ -270,15 +282,15 @@ def _explain_rows(case, table, col, lst, net_batch, net_single, ra, rb):
             t = stdtype(pos)
             if col in t:
                 exp = ic.norm(t[col])
-            elif col in ("tap_pos", "tap2_pos") and col not in args:
+            elif col in ("tap_pos", "tap2_pos") and (col not in args or ic.norm(ic.single_value(args[col], pos)) is None):
                 exp = ic.norm(t.get(col.replace("pos", "neutral")))
             else:
                 return False
             return vb == exp and (va in (None, "nan") or (col == "shift_degree" and va == 0.0))
         if allrows(pred):
             out.append("explained=transformers_std_param_not_copied")
-    if pair in ("trafo", "trafo_par") and col in ("tap2_side", "vector_group") and col not in args and \
-            allrows(lambda pos, va, vb: va == "nan" and vb is None):
+    if pair.startswith("trafo") and col in ("tap2_side", "vector_group", "tap_changer_type") and \
+            allrows(lambda pos, va, vb: va in ("nan", "None") and (col not in args or ic.norm(ic.single_value(args[col], pos)) is None)):
         out.append("explained=nan_string_from_astype_str")
     if pair == "sgen" and col == "generator_type" and col not in args and \
             allrows(lambda pos, va, vb: va == "current_source" and vb is None):
